@@ -5,6 +5,7 @@ from __future__ import annotations
 import math
 from fractions import Fraction as Fr
 
+import numpy as np
 from hypothesis import strategies as st
 
 from vf.core import Sub
@@ -123,6 +124,22 @@ def check_grid(spec, ctx):
         ctx.fail(f"intervals_overlap not symmetric: {got} vs swapped {got_sym}", spec, [got, got_sym], None, kind="symmetry")
     if not isinstance(got, (bool,)) and type(got).__name__ != "bool_":
         ctx.fail(f"intervals_overlap returned non-bool {type(got)}", spec, repr(got), "bool", kind="type")
+    # other ways of writing the same call: thresholds passed positionally (documented order: interval1, interval2,
+    # min_absolute_overlap, min_relative_overlap), intervals as lists, numbers as numpy scalars
+    alts = {"lists": lambda: _call(lambda a, b, **k: f(list(a), list(b), **k), i1, i2, mode, thr),
+            "numpy scalars": lambda: _call(lambda a, b, **k: f((np.float64(a[0]), np.float64(a[1])), (np.float64(b[0]), np.float64(b[1])), **{q: np.float64(v) for q, v in k.items()}), i1, i2, mode, thr)}
+    if mode == "abs":
+        alts["positional"] = lambda: f(tuple(i1), tuple(i2), thr)
+    elif mode == "rel":
+        alts["positional"] = lambda: f(tuple(i1), tuple(i2), None, thr)
+    for how, call in alts.items():
+        try:
+            other = call()
+        except Exception as e:
+            ctx.fail(f"intervals_overlap written with {how} raised {type(e).__name__}: {str(e)[:120]}", spec, repr(e)[:200], bool(got), kind="call_style")
+            continue
+        if bool(other) != bool(got):
+            ctx.fail(f"intervals_overlap written with {how} gives {other}, the plain call gives {got}", spec, bool(other), bool(got), kind="call_style")
     # monotone in the threshold: raising a threshold never turns False into True
     if mode != "none" and spec["thr2"] is not None:
         got2 = _call(f, i1, i2, mode, spec["thr2"])
@@ -378,6 +395,9 @@ def check_clip(spec, ctx):
     exp = (m1 > 0) and (m2 > 0)
     got = geometry.is_in_clip(g, clip, minimum_overlap=m)
     got_default = geometry.is_in_clip(g, clip) if m == 0 else None
+    for how, other in (("a positional minimum", geometry.is_in_clip(g, clip, m)), ("a numpy scalar minimum", geometry.is_in_clip(g, clip, minimum_overlap=np.float64(m)))):
+        if bool(other) != bool(got):
+            ctx.fail(f"is_in_clip with {how} gives {other}, with minimum_overlap={m} as keyword {got}", spec, bool(other), bool(got), kind="call_style")
     ctx.case(
         spec,
         nontrivial=(m1 == 0 or m2 == 0),
